@@ -54,6 +54,10 @@ CHECKS = {
    technique="exhaustive product of shifts x producers x systems x subdivision settings x control / correlation time specifications; metamorphic oracle: the run shifted by tau (start time and every explicit time dependence) must reproduce every state, field and correlation and shift every reported time by exactly tau",
    text="Every member of the product tau in {0.37, -1.3, 2.0, 1000.1 (+2 thorough)} x {Tempo, MeanFieldTempo, PtTempo+compute_dynamics, compute_dynamics, compute_dynamics_with_field, compute_correlations} x {H(t), H(t)+gamma(t)A(t)} x subdiv_limit {None, default} x 6 float control sets / 6 float correlation-time specifications x environments {none, exact ancilla, PT-TEMPO} is run twice (base and shifted); values must agree (1e-9 with a shared process tensor, 20*epsrel*n otherwise), times must be shifted within 4 ulp. For every time-dependent ingredient a vacuity partner (everything shifted but that ingredient) measures the effect a missing start_time would have (>= 1e-3).",
    note="Metamorphic: does not establish absolute correctness of the dynamics (C01-C03 do). End times are given off-grid so that the check does not depend on the C13 rule."),
+ "C12": dict(category="exploration", design="4/C12",
+   technique="exhaustive product of correlation-object alphabets (class x cut-off x exponent x temperature regime incl. the overflow-guard crossover x cut-off frequency x dt) x all cell shapes and positions, each cell compared with an independent frequency-space quadrature, with integration of the object's own correlation function, closed forms, tiling identities and Matsubara/KMS relations",
+   text="288 (thorough 1156) correlation objects x 2 dt x {triangle, squares k=1..3, rectangles of 3 widths at 2 positions, positioned triangle} = 22k (98k) evaluations: every cell is compared with (A) an own Gauss-Legendre frequency-space quadrature of the exact cell kernel, (B) 1D integration of the object's own correlation(), (F) T=0 exponential closed forms, (T) additive tiling; plus C(-tau)=conj C(tau), Re triangle>0, CustomSD == PowerLawSD, and Matsubara cells (real, equal to an own imaginary-time quadrature, KMS symmetric). Bounded-exhaustive over the alphabet.",
+   note="Tolerance C*epsrel*S + 4*epsabs*n with S the sum of |eta| at the corner times (the library forms cells as eta differences with QUADPACK's default epsabs), C=75 (1200 for sub-ohmic thermal objects); head-room >= 34x; oracle self-validated against closed forms to 6e-13."),
 }
 NOT_YET = "check not built yet in this round (see DESIGN.md sec. 8 build order)"
 
